@@ -19,6 +19,7 @@ import (
 	"encoding/json"
 	"fmt"
 	"os"
+	"strings"
 	"sync"
 	"time"
 
@@ -108,6 +109,24 @@ func run(c *lib.Ctx) error {
 		return replay(c, dir, fns)
 	}
 	c.Set("rule", "G: a case is (buffer, dot, builtin); distinct by (runes, dot, builtin); non-trivial = the real builtin changed the buffer or the dot. V: one case per recorded call; sequences are distinct by their initial buffer and event script")
+	// development aid (mutant triage on a loaded machine): C28_PARTS=G,A,V restricts the run to the
+	// builtin generation (G), the code-area generation (A) and/or the validation (V). Default: all.
+	parts := os.Getenv("C28_PARTS")
+	part := func(p string) bool { return parts == "" || strings.Contains(parts, p) }
+	if parts != "" {
+		c.Set("partial_run", parts)
+	}
+	if !part("G") {
+		if part("A") {
+			if err := codeAreaG(c, dir, fns); err != nil {
+				return err
+			}
+		}
+		if part("V") {
+			return validate(c, dir, fns)
+		}
+		return nil
+	}
 	N := c.Pick(4, 5)
 	c.Set("bounds", map[string]any{"N_generate": N, "N_consequences": N - 1, "kinds": 6})
 
@@ -122,7 +141,7 @@ func run(c *lib.Ctx) error {
 	}()
 	go func() {
 		defer wg.Done()
-		cons, e2 = c.TLC("MCCodeBuffer(consequences)", lib.TLCRun{Dir: dir, Module: "MCCodeBuffer", Workers: 2, Timeout: 13 * time.Minute,
+		cons, e2 = c.TLC("MCCodeBuffer(consequences)", lib.TLCRun{Dir: dir, Module: "MCCodeBuffer", Workers: 4, Timeout: 13 * time.Minute,
 			Files: map[string][]byte{"MCCodeBuffer.cfg": mcCfg(N-1, "ConseqAll")}})
 	}()
 	wg.Wait()
@@ -229,12 +248,16 @@ func run(c *lib.Ctx) error {
 		c.Reject("builtin:"+pc.A+":transpose", fmt.Sprintf("%s on runes %v dot %d -> runes %v dot %d: not a permutation with a valid dot", pc.A, pc.B, pc.D, pc.B2, pc.D2), map[string]any{"buf": pc.B, "dot": pc.D, "builtin": pc.A})
 	}
 	// ---- G, code-area events
-	if err := codeAreaG(c, dir, fns); err != nil {
-		return err
+	if part("A") {
+		if err := codeAreaG(c, dir, fns); err != nil {
+			return err
+		}
 	}
 	// ---- V
-	if err := validate(c, dir, fns); err != nil {
-		return err
+	if part("V") {
+		if err := validate(c, dir, fns); err != nil {
+			return err
+		}
 	}
 	c.Assume("TLC trusted; category (unicode.IsSpace / IsLetter|IsNumber) and width (pkg/wcwidth.OfRune) of a rune are data attached by the executor; parse.Quote of a pasted text is a primitive evaluated by the executor; the dot after a transpose, word motions with no word on that side, transposes with the dot inside a word or fewer than two words, and command-abbreviation expansion are Unspecified as listed in the module headers")
 	return nil
